@@ -23,6 +23,20 @@ package main
 // nil stored into a typed non-interface slot; NaN; `v in x` where x sits in an
 // interface-typed slot (nested element, interface field: C20's finding, not a
 // container rule); `a[:]` (not in the script grammar); string + non-string (C05).
+//
+// Typed numeric slices of other element types ([]int32, []byte, []float32) take part
+// in every operation; a store converts as Go would when the element type can hold the
+// value (a wrapping integer store, a string read as a byte / rune and []byte / []rune
+// read as a string are kept out). `in` on a typed numeric slice: two numbers of
+// different Go types are unequal as Go interface values and equal for the script's ==
+// when they denote the same number - not judged; a needle that denotes a number no
+// element denotes (1.5 against int64 1, 257 against byte 1) is not `in`.
+// Nil typed maps and nil typed slices (zero elements of make([]map[string]float64, n) /
+// make([][]int64, n) / make([][]interface, n), names bound to them, struct fields set
+// to nil) are containers like any other: appending to a nil slice allocates (the result
+// never shares storage with the right operand); a store into a nil map is accepted as
+// an error that changes nothing (Go) or as a new map holding the CONVERTED value bound
+// to the place (script). A slice expression `a[i:j]` is a place for reads and stores.
 
 import (
 	"fmt"
@@ -52,6 +66,16 @@ var (
 	c10StrSlT  = reflect.TypeOf([]string{})
 	c10MapSIT  = reflect.TypeOf(map[string]int64{})
 	c10MapISt  = reflect.TypeOf(map[int64]string{})
+	c10I32T    = reflect.TypeOf(int32(0))
+	c10U8T     = reflect.TypeOf(uint8(0))
+	c10F32T    = reflect.TypeOf(float32(0))
+	c10I32SlT  = reflect.TypeOf([]int32{})
+	c10U8SlT   = reflect.TypeOf([]uint8{})
+	c10F32SlT  = reflect.TypeOf([]float32{})
+	c10MapSFT  = reflect.TypeOf(map[string]float64{})
+	c10MapSlT  = reflect.TypeOf([]map[string]float64{}) // elements of make([]map[string]float64, n) are nil maps
+	c10SlSlT   = reflect.TypeOf([][]int64{})            // elements of make([][]int64, n) are nil slices
+	c10USlSlT  = reflect.TypeOf([][]interface{}{})
 	c10StructT = reflect.StructOf([]reflect.StructField{
 		{Name: "A", Type: c10I64T}, {Name: "B", Type: c10StrT}, {Name: "C", Type: c10I64SlT},
 		{Name: "D", Type: c10MapSIT}, {Name: "E", Type: c10IfaceT}, {Name: "F", Type: c10F64T}, {Name: "G", Type: c10BoolT}})
@@ -115,6 +139,22 @@ func c10F64Lit(fs ...float64) c10Val {
 	return c10Val{"[]float64{" + strings.Join(src, ", ") + "}", cp, "tslice-lit"}
 }
 
+// c10NumLit is a typed literal of a numeric slice type: `[]int32{1, 2}`; the values are
+// representable in the element type.
+func c10NumLit(elem string, t reflect.Type, fs ...float64) c10Val {
+	var src []string
+	sl := reflect.MakeSlice(t, len(fs), len(fs))
+	for i, f := range fs {
+		if c10IsFloatKind(t.Elem().Kind()) {
+			src = append(src, c10Float(f).src)
+		} else {
+			src = append(src, strconv.FormatInt(int64(f), 10))
+		}
+		sl.Index(i).Set(reflect.ValueOf(f).Convert(t.Elem()))
+	}
+	return c10Val{"[]" + elem + "{" + strings.Join(src, ", ") + "}", sl.Interface(), "tslice-lit"}
+}
+
 func c10Class(v reflect.Value) string {
 	if !v.IsValid() {
 		return "nil"
@@ -167,22 +207,51 @@ func c10Conv(v interface{}, t reflect.Type) (out reflect.Value, st int, fresh bo
 		return reflect.ValueOf(v), c10CvOK, false
 	}
 	if v == nil {
-		return out, c10CvExcl, false // nil into int64/string/slice/map slot: Go would not compile it
+		if t.Kind() == reflect.Slice || t.Kind() == reflect.Map {
+			return reflect.Zero(t), c10CvOK, false // Go: `slot = nil` for a slice or map slot
+		}
+		return out, c10CvExcl, false // nil into int64/string slot: Go would not compile it
 	}
 	rv := reflect.ValueOf(v)
 	if rv.Type() == t {
 		return rv, c10CvOK, false
 	}
 	sk, tk := rv.Kind(), t.Kind()
-	num := func(k reflect.Kind) bool { return k == reflect.Int64 || k == reflect.Float64 }
 	switch {
-	case num(sk) && num(tk):
-		if sk == reflect.Float64 && (math.IsNaN(rv.Float()) || math.Abs(rv.Float()) >= 1<<62) {
-			return out, c10CvExcl, false // out-of-range float->int is implementation-defined in Go
+	case c10IsNumKind(sk) && c10IsNumKind(tk):
+		switch {
+		case c10IsFloatKind(sk) && !c10IsFloatKind(tk):
+			f := rv.Float()
+			if math.IsNaN(f) || math.Abs(f) >= 1<<62 {
+				return out, c10CvExcl, false // out-of-range float->int is implementation-defined in Go
+			}
+			if lo, hi := c10IntRange(t); math.Trunc(f) < lo || math.Trunc(f) > hi {
+				return out, c10CvExcl, false
+			}
+		case !c10IsFloatKind(sk) && !c10IsFloatKind(tk):
+			// an integer the narrower type cannot represent: Go wraps a non-constant and
+			// rejects a constant; which of the two the statement means is not said
+			var f float64
+			if c10IsUintKind(sk) {
+				f = float64(rv.Uint())
+			} else {
+				f = float64(rv.Int())
+			}
+			if lo, hi := c10IntRange(t); f < lo || f > hi {
+				return out, c10CvExcl, false
+			}
+		case c10IsFloatKind(sk) && tk == reflect.Float32:
+			if math.Abs(rv.Float()) > math.MaxFloat32 {
+				return out, c10CvExcl, false
+			}
 		}
 		return rv.Convert(t), c10CvOK, false
-	case sk == reflect.Int64 && tk == reflect.String:
+	case (c10IsNumKind(sk) && !c10IsFloatKind(sk)) && tk == reflect.String:
 		return out, c10CvExcl, false // Go: string(rune(i)); the statement hardly means that
+	case sk == reflect.String && (tk == reflect.Uint8 || tk == reflect.Int32):
+		return out, c10CvExcl, false // the script reads a one-character string as a byte / rune; Go has no such conversion
+	case tk == reflect.String && c10IsRunesOrBytes(v):
+		return out, c10CvExcl, false // Go: string([]byte) / string([]rune)
 	case sk == reflect.Slice && tk == reflect.Slice:
 		// Go cannot convert between slice types; anko documents an element-wise copy. Both accepted.
 		n := rv.Len()
@@ -199,6 +268,46 @@ func c10Conv(v interface{}, t reflect.Type) (out reflect.Value, st int, fresh bo
 		return out, c10CvExcl, false
 	}
 	return out, c10CvErr, false
+}
+
+func c10IsRunesOrBytes(v interface{}) bool {
+	if v == nil {
+		return false
+	}
+	t := reflect.TypeOf(v)
+	return t.Kind() == reflect.Slice && (t.Elem().Kind() == reflect.Uint8 || t.Elem().Kind() == reflect.Int32)
+}
+
+func c10IsFloatKind(k reflect.Kind) bool { return k == reflect.Float32 || k == reflect.Float64 }
+func c10IsUintKind(k reflect.Kind) bool {
+	switch k {
+	case reflect.Uint, reflect.Uint8, reflect.Uint16, reflect.Uint32, reflect.Uint64, reflect.Uintptr:
+		return true
+	}
+	return false
+}
+func c10IsNumKind(k reflect.Kind) bool {
+	switch k {
+	case reflect.Int, reflect.Int8, reflect.Int16, reflect.Int32, reflect.Int64:
+		return true
+	}
+	return c10IsUintKind(k) || c10IsFloatKind(k)
+}
+
+// c10IntRange: the values an integer type holds (64-bit types: clipped to +-2^62,
+// float64 cannot spell their ends).
+func c10IntRange(t reflect.Type) (lo, hi float64) {
+	b := t.Bits()
+	if b >= 64 {
+		if c10IsUintKind(t.Kind()) {
+			return 0, 1 << 62
+		}
+		return -(1 << 62), 1 << 62
+	}
+	if c10IsUintKind(t.Kind()) {
+		return 0, float64(uint64(1)<<uint(b)) - 1
+	}
+	return -float64(uint64(1) << uint(b-1)), float64(uint64(1)<<uint(b-1)) - 1
 }
 
 // ---- parallel walk of live object and model ----
@@ -318,7 +427,13 @@ func (c *c10Cmp) cmp(l, m reflect.Value, path string) bool {
 			return c.bad("value-mismatch", path, "got "+ank.RenderValue(l)+", model "+ank.RenderValue(m))
 		}
 		return true
-	case reflect.Int64, reflect.String, reflect.Bool:
+	case reflect.Float32:
+		if math.Float32bits(float32(l.Float())) != math.Float32bits(float32(m.Float())) {
+			return c.bad("value-mismatch", path, "got "+ank.RenderValue(l)+", model "+ank.RenderValue(m))
+		}
+		return true
+	case reflect.Int64, reflect.String, reflect.Bool, reflect.Int, reflect.Int8, reflect.Int16, reflect.Int32,
+		reflect.Uint, reflect.Uint8, reflect.Uint16, reflect.Uint32, reflect.Uint64:
 		if l.Interface() != m.Interface() {
 			return c.bad("value-mismatch", path, "got "+ank.RenderValue(l)+", model "+ank.RenderValue(m))
 		}
@@ -344,8 +459,9 @@ func (v *c10Var) cur() reflect.Value {
 // c10Place designates a container: a variable, optionally one selector deep.
 type c10Place struct {
 	root string
-	sel  byte // 0 none, 'i' slice element, 'f' struct field, 'k' map entry
+	sel  byte // 0 none, 'i' slice element, 'f' struct field, 'k' map entry, 's' slice expression root[i:j] (a temporary header sharing root's storage)
 	i    int
+	j    int
 	f    string
 	k    c10Val
 }
@@ -360,6 +476,8 @@ func (p c10Place) src() string {
 		return p.root + "." + p.f
 	case 'k':
 		return p.root + "[" + p.k.src + "]"
+	case 's':
+		return p.root + "[" + strconv.Itoa(p.i) + ":" + strconv.Itoa(p.j) + "]"
 	}
 	return p.root
 }
@@ -370,6 +488,8 @@ func (p c10Place) kind() string {
 		return "nested"
 	case 'f':
 		return "field"
+	case 's':
+		return "sliceexpr"
 	}
 	return "var"
 }
@@ -426,6 +546,11 @@ func c10Select(cur reflect.Value, p c10Place) reflect.Value {
 			return reflect.Value{}
 		}
 		return cur.FieldByName(p.f)
+	case 's':
+		if cur.Kind() != reflect.Slice || p.i < 0 || p.i > p.j || p.j > cur.Len() {
+			return reflect.Value{}
+		}
+		return cur.Slice3(p.i, p.j, cur.Cap())
 	case 'k':
 		if cur.Kind() != reflect.Map {
 			return reflect.Value{}
@@ -646,8 +771,29 @@ func (h *c10Hist) bind(name string, v reflect.Value) {
 
 func (h *c10Hist) newOp(opk string, p c10Place, src string) (*c10Op, reflect.Value) {
 	cont := h.mget(p)
-	return &c10Op{src: src, opk: opk, ck: c10Class(cont), pk: p.kind()}, cont
+	ck := c10Class(cont)
+	if cont.IsValid() && (cont.Kind() == reflect.Slice || cont.Kind() == reflect.Map) && cont.IsNil() {
+		ck = "nil-" + ck // a zero element of make([]map..) / make([][]T..), a field or name set to nil
+	}
+	if p.sel == 's' {
+		opk = "sliceexpr-" + opk
+	}
+	return &c10Op{src: src, opk: opk, ck: ck, pk: p.kind()}, cont
 }
+
+// Defects of the unchanged tree reported in /tmp/strengthen/C10-genuine.md; the input
+// class is kept out of the generator until /repo is repaired, then flip to false.
+const (
+	// `a[i:j][len] = v`: the statement fails ("slice cannot be assigned") after the
+	// appended value was already written into the capacity a[i:j] shares with a
+	c10PendingFix_SliceExprAppend = false
+	// `ns += [ts]` on a typed slice of slices stores a COPY of ts (convertSliceElements
+	// rebuilds inner slices), `ns[len(ns)] = ts` and Go's append(ns, ts) store the reference
+	c10PendingFix_AppendCopiesInner = false
+	// delete(m, k) with an unhashable / ill-typed key reports no error when m is a nil map
+	// (runDeleteStmt returns before it looks at the key)
+	c10PendingFix_DeleteNilMapBadKey = false
+)
 
 // opInit: `name = <fresh value>`.
 func (h *c10Hist) opInit(name string, v c10Val) *c10Op {
@@ -766,6 +912,8 @@ func (h *c10Hist) opWrite(p c10Place, ix c10Idx, v c10Val, viaCall bool) *c10Op 
 			return nil // multi-byte / empty store into a position: excluded
 		case v.v == nil || v.tag == "int":
 			return nil // nil / int -> string: excluded
+		case c10IsRunesOrBytes(v.v):
+			return nil // Go converts []byte / []rune to a string: excluded like the multi-byte stores
 		default:
 			op.wantErr, op.why = true, "unconvertible-value"
 		}
@@ -804,6 +952,21 @@ func (h *c10Hist) opWrite(p c10Place, ix c10Idx, v c10Val, viaCall bool) *c10Op 
 		op.mut = true
 		if !atLen {
 			op.commit = func(reflect.Value) { cont.Index(int(ix.n)).Set(cv) }
+			return op
+		}
+		if p.sel == 's' {
+			// `a[i:j][len] = v` is `a[i:j] = append(a[i:j], v)`, and a slice expression cannot
+			// be assigned. Accepted: an error leaving everything unchanged, or what Go's
+			// `_ = append(a[i:j], v)` does (the value lands in shared spare capacity, if any)
+			if c10PendingFix_SliceExprAppend {
+				return nil
+			}
+			op.either, op.why = true, "append-to-slice-expression"
+			op.commit = func(reflect.Value) {
+				if cont.Len() < cont.Cap() {
+					c10AppendModel(cont, []reflect.Value{cv}, reflect.Value{})
+				}
+			}
 			return op
 		}
 		op.commit = func(reflect.Value) {
@@ -872,8 +1035,20 @@ func (h *c10Hist) opAppend(form, dst string, p c10Place, rhs c10Val) *c10Op {
 	}
 	var raw []interface{}
 	if rv := reflect.ValueOf(rhs.v); rhs.v != nil && rv.Kind() == reflect.Slice {
+		et, rt := cont.Type().Elem(), rv.Type().Elem()
+		isCont := func(k reflect.Kind) bool { return k == reflect.Slice || k == reflect.Map }
+		if rv.Len() == 0 && et != rt && rt.Kind() != reflect.Interface && et.Kind() != reflect.Interface && (isCont(et.Kind()) || isCont(rt.Kind())) {
+			// an EMPTY typed list whose elements are slices / maps of another type than the
+			// left operand's elements (or not containers at all): whether the types or the
+			// (absent) elements decide is not stated
+			return nil
+		}
 		for i := 0; i < rv.Len(); i++ {
-			raw = append(raw, rv.Index(i).Interface())
+			x := rv.Index(i).Interface()
+			if x == nil && et.Kind() != reflect.Interface {
+				return nil // a nil inside a list appended to a typed slice: kept out (only `slot = nil` / `s += nil` are generated)
+			}
+			raw = append(raw, x)
 		}
 	} else {
 		raw = []interface{}{rhs.v}
@@ -898,6 +1073,13 @@ func (h *c10Hist) opAppend(form, dst string, p c10Place, rhs c10Val) *c10Op {
 	// that appends one element at a time can differ observably from one Go append get
 	// their own operation kind so that a listed finding there cannot hide other appends.
 	if rv := reflect.ValueOf(rhs.v); rhs.v != nil && rv.Kind() == reflect.Slice && rv.Type().Elem() != cont.Type().Elem() {
+		if c10PendingFix_AppendCopiesInner && cont.Type().Elem().Kind() == reflect.Slice {
+			for _, it := range items {
+				if it.IsValid() && it.Kind() == reflect.Slice && it.Cap() > 0 {
+					return nil // `ns += [ts]`: Go appends the reference, the live append copies ts
+				}
+			}
+		}
 		op.opk += "-converting"
 		room := cont.Cap() - cont.Len()
 		switch {
@@ -1037,17 +1219,27 @@ func (h *c10Hist) opLen(p c10Place) *c10Op {
 }
 
 // c10EqClass: 1 equal, 0 unequal, -1 not decidable from the statement (cross-kind
-// scalar comparisons are C06's relation, not Go's ==).
+// scalar comparisons are C06's relation, not Go's ==). Two numbers of different Go
+// types (a script literal against an element of a typed slice) are never Go-equal
+// as interface values and are script-equal when they denote the same number: -1
+// when they do, 0 when they do not - a needle that no element equals under either
+// relation is not `in` the list.
 func c10EqClass(needle, e interface{}) int {
 	if needle == nil || e == nil {
 		if needle == nil && e == nil {
 			return 1
 		}
+		if x := reflect.ValueOf(e); x.IsValid() && (x.Kind() == reflect.Slice || x.Kind() == reflect.Map) && x.IsNil() {
+			return -1 // nil against a nil typed slice / map: unequal as Go interface values, equal for the script's ==
+		}
+		if x := reflect.ValueOf(needle); x.IsValid() && (x.Kind() == reflect.Slice || x.Kind() == reflect.Map) && x.IsNil() {
+			return -1
+		}
 		return 0
 	}
 	nt, et := reflect.TypeOf(needle), reflect.TypeOf(e)
 	scalar := func(k reflect.Kind) bool {
-		return k == reflect.Int64 || k == reflect.Float64 || k == reflect.String || k == reflect.Bool
+		return c10IsNumKind(k) || k == reflect.String || k == reflect.Bool
 	}
 	if nt == et && scalar(nt.Kind()) {
 		if needle == e {
@@ -1055,7 +1247,63 @@ func c10EqClass(needle, e interface{}) int {
 		}
 		return 0
 	}
+	if c10IsNumKind(nt.Kind()) && c10IsNumKind(et.Kind()) {
+		return c10NumEqClass(reflect.ValueOf(needle), reflect.ValueOf(e))
+	}
 	if scalar(et.Kind()) || nt.Kind() == reflect.Bool {
+		return -1
+	}
+	return 0
+}
+
+// c10NumEqClass compares two numbers of different Go types by the number they denote:
+// -1 the same number (or not decidable here), 0 different numbers.
+func c10NumEqClass(a, b reflect.Value) int {
+	af, bf := c10IsFloatKind(a.Kind()), c10IsFloatKind(b.Kind())
+	mag := func(v reflect.Value) (neg bool, m uint64) {
+		if c10IsUintKind(v.Kind()) {
+			return false, v.Uint()
+		}
+		if v.Int() < 0 {
+			return true, uint64(-v.Int())
+		}
+		return false, uint64(v.Int())
+	}
+	switch {
+	case !af && !bf:
+		an, am := mag(a)
+		bn, bm := mag(b)
+		if am >= 1<<62 || bm >= 1<<62 {
+			return -1 // how a 64-bit unsigned and a negative number compare is C06's business
+		}
+		if an == bn && am == bm {
+			return -1
+		}
+		return 0
+	case af && bf:
+		// float32 against float64: the same number, or the same number once the wider one
+		// is rounded to float32 (the script may compare the two widths loosely) -> -1
+		x, y := a.Float(), b.Float()
+		if x == y || float32(x) == float32(y) {
+			return -1
+		}
+		return 0
+	}
+	if af {
+		a, b = b, a
+	}
+	// a integer, b float: exact while the integer fits a float64 mantissa
+	_, am := mag(a)
+	if am > 1<<53 {
+		return -1
+	}
+	var x float64
+	if c10IsUintKind(a.Kind()) {
+		x = float64(a.Uint())
+	} else {
+		x = float64(a.Int())
+	}
+	if x == b.Float() {
 		return -1
 	}
 	return 0
@@ -1067,7 +1315,8 @@ func (h *c10Hist) opIn(v c10Val, p c10Place) *c10Op {
 	if !cont.IsValid() || cont.Kind() != reflect.Slice {
 		return nil
 	}
-	if p.sel == 'i' || p.sel == 'k' || (p.sel == 'f' && p.f == "E") {
+	if rc := h.mget(c10P(p.root)); (p.sel == 'i' && !(rc.IsValid() && rc.Kind() == reflect.Slice && rc.Type().Elem().Kind() != reflect.Interface)) ||
+		p.sel == 'k' || (p.sel == 'f' && p.f == "E") {
 		// the right operand sits in an interface-typed slot: `in` does not see through it
 		// today, which is C20's finding (a value behaves the same wherever it came from)
 		return nil
@@ -1258,6 +1507,21 @@ func (h *c10Hist) opMapWrite(p c10Place, k, v c10Val, member, viaCall bool) *c10
 		return op
 	}
 	op.mut = true
+	if cont.IsNil() {
+		// Go panics on a store into a nil map, the script creates the map and binds it to
+		// the place. "a store converts the value as Go would or fails with an error leaving
+		// the old content": both accepted - never an unconverted value, never a host panic
+		op.either, op.why = true, "store-into-nil-map"
+		op.commit = func(reflect.Value) {
+			if viaCall {
+				return // the callee's parameter received the new map
+			}
+			nm := reflect.MakeMap(cont.Type())
+			nm.SetMapIndex(kv, cv)
+			h.mset(p, nm)
+		}
+		return op
+	}
 	op.commit = func(reflect.Value) { cont.SetMapIndex(kv, cv) }
 	return op
 }
@@ -1286,11 +1550,18 @@ func (h *c10Hist) opDelete(p c10Place, k c10Val, viaCall bool) *c10Op {
 	}
 	op.itag = "key:" + k.tag
 	if st == c10CvErr {
+		if c10PendingFix_DeleteNilMapBadKey && cont.IsNil() {
+			return nil
+		}
 		op.wantErr, op.why = true, why
 		return op
 	}
 	op.mut = true
-	op.commit = func(reflect.Value) { cont.SetMapIndex(kv, reflect.Value{}) }
+	op.commit = func(reflect.Value) {
+		if !cont.IsNil() { // delete on a nil map is a no-op in Go
+			cont.SetMapIndex(kv, reflect.Value{})
+		}
+	}
 	return op
 }
 
@@ -1359,6 +1630,8 @@ var c10NameType = map[string]reflect.Type{
 	"a": c10USliceT, "b": c10USliceT, "c": c10USliceT, "m": c10UMapT, "n": c10UMapT, "s": c10StrT, "t": c10StrT,
 	"ts": c10I64SlT, "tt": c10I64SlT, "tf": c10F64SlT, "tl": c10StrSlT, "tm": c10MapSIT, "tn": c10MapSIT, "tk": c10MapISt,
 	"st": c10StructT,
+	"ti": c10I32SlT, "tb": c10U8SlT, "tg": c10F32SlT,
+	"nm": c10MapSlT, "tp": c10MapSFT, "tq": c10MapSFT, "ns": c10SlSlT, "nu": c10USlSlT,
 }
 
 var c10Profiles = [][]string{
@@ -1368,6 +1641,11 @@ var c10Profiles = [][]string{
 	{"a", "b", "m", "s", "ts", "tt", "tm", "st"},
 	{"a", "b", "c"},
 	{"ts", "tt", "a"},
+	// typed numeric slices of several element types (membership with needles the element type cannot represent)
+	{"ti", "tb", "tg", "ts", "tf", "a"},
+	// slices whose zero elements are nil maps / nil slices, names and struct fields bound to them
+	{"ns", "ts", "tt", "nm", "tp", "tq", "st"},
+	{"nu", "a", "b", "ns", "ts", "nm", "tp"},
 }
 
 type c10Gen struct {
@@ -1490,6 +1768,9 @@ func (g *c10Gen) valFor(t reflect.Type) c10Val {
 	case c10BoolT:
 		return c10Bool(g.rn(2) == 0)
 	case c10I64SlT:
+		if g.rn(12) == 0 {
+			return c10Nil()
+		}
 		switch r := g.rn(10); {
 		case r < 4:
 			if n := g.pickName(c10I64SlT); n != "" {
@@ -1509,13 +1790,93 @@ func (g *c10Gen) valFor(t reflect.Type) c10Val {
 		}
 		return c10F64Lit(1.5, 4)
 	case c10MapSIT:
+		if g.rn(8) == 0 {
+			return c10Nil()
+		}
 		if n := g.pickName(c10MapSIT); n != "" {
 			if v, ok := g.varRef(n); ok {
 				return v
 			}
 		}
+	case c10I32T, c10U8T:
+		if g.rn(3) == 0 {
+			return c10Float([]float64{1.5, 3, 0.5, 2.7, 200.25}[g.rn(5)])
+		}
+		return c10Int([]int64{0, 1, 2, 3, 7, 42, 100, 255, 256, 300, -1, 1 << 40}[g.rn(12)])
+	case c10F32T:
+		if g.rn(3) == 0 {
+			return c10Int([]int64{0, 1, 3, 16777216, 16777217}[g.rn(5)])
+		}
+		return c10Float([]float64{1.5, 1.1, -2.25, 0.5, 3}[g.rn(5)])
+	default:
+		if t.Kind() == reflect.Slice || t.Kind() == reflect.Map {
+			// a nil, or the (shared) value of a variable of exactly this type
+			if g.rn(6) == 0 {
+				return c10Nil()
+			}
+			if n := g.pickName(t); n != "" {
+				if t.Kind() == reflect.Slice && g.rn(3) == 0 {
+					if v, ok := g.reslice(n); ok {
+						return v
+					}
+				}
+				if v, ok := g.varRef(n); ok {
+					return v
+				}
+			}
+		}
 	}
 	return g.anyVal()
+}
+
+// needle draws the left operand of `in` for a typed numeric slice: an element's own
+// number spelled as an integer or a float, that number plus a fraction, and that
+// number plus or minus 2^8 / 2^16 / 2^32 - what a conversion to the element type
+// would truncate or wrap back onto the element.
+func (g *c10Gen) needle(cont reflect.Value) c10Val {
+	base := float64(g.rn(4))
+	if cont.Len() > 0 {
+		e := cont.Index(g.rn(cont.Len()))
+		switch {
+		case c10IsFloatKind(e.Kind()):
+			base = e.Float()
+		case c10IsUintKind(e.Kind()):
+			base = float64(e.Uint())
+		default:
+			base = float64(e.Int())
+		}
+	}
+	if math.Abs(base) > 1<<40 || math.IsNaN(base) {
+		base = 1
+	}
+	lit := func(f float64) c10Val {
+		if f == math.Trunc(f) && g.rn(3) > 0 {
+			return c10Int(int64(f))
+		}
+		return c10Float(f)
+	}
+	switch g.rn(10) {
+	case 0, 1:
+		return lit(base)
+	case 2:
+		return c10Float(math.Trunc(base) + 0.5)
+	case 3:
+		return c10Float(math.Trunc(base) + []float64{0.9, -0.5, 0.25, 0.999}[g.rn(4)])
+	case 4:
+		return lit(base + 256)
+	case 5:
+		return lit(base - 256)
+	case 6:
+		return lit(base + 4294967296)
+	case 7:
+		return lit(base - 4294967296)
+	case 8:
+		return lit(base + []float64{65536, -65536, 1, -1}[g.rn(4)])
+	}
+	if cont.Type().Elem().Kind() == reflect.Float32 {
+		return c10Int(int64(base) + 1) // 16777216 + 1 rounds back onto the float32 element
+	}
+	return g.scalar()
 }
 
 // idx draws from the index universe for a container of length n.
@@ -1708,6 +2069,15 @@ func (g *c10Gen) place() c10Place {
 		}
 		return c10Place{root: root, sel: 'f', f: fs[g.rn(len(fs))]}
 	case reflect.Slice:
+		if ek := cur.Type().Elem().Kind(); (ek == reflect.Slice || ek == reflect.Map) && cur.Len() > 0 && g.rn(100) < 65 {
+			// an element of a typed slice of slices / maps: a nil slice or nil map until something is stored
+			return c10Place{root: root, sel: 'i', i: g.rn(cur.Len())}
+		}
+		if g.rn(100) < 6 {
+			// a slice expression as the container of a store / read: shares root's storage
+			i := g.rn(cur.Len() + 1)
+			return c10Place{root: root, sel: 's', i: i, j: i + g.rn(cur.Len()-i+1)}
+		}
 		if cur.Type() == c10USliceT && g.rn(100) < 15 {
 			var idx []int
 			for i := 0; i < cur.Len(); i++ {
@@ -1800,6 +2170,38 @@ func (g *c10Gen) initVal(name string) c10Val {
 		return c10Val{`map[int64]string{1: "a", 2: "b"}`, map[int64]string{1: "a", 2: "b"}, "tmap-lit"}
 	case c10StrT:
 		return c10Str([]string{"", "abc", "hello world", "héllo", "a", "xyz"}[r])
+	case c10I32SlT:
+		if r%3 == 0 {
+			return c10Val{"make([]int32, 2, 4)", make([]int32, 2, 4), "make"}
+		}
+		return c10NumLit("int32", c10I32SlT, 1, 2, 300, -7)
+	case c10U8SlT:
+		if r%3 == 0 {
+			return c10Val{"make([]byte, 3)", make([]byte, 3), "make"}
+		}
+		return c10NumLit("byte", c10U8SlT, 1, 2, 255, 0)
+	case c10F32SlT:
+		if r%3 == 0 {
+			return c10Val{"make([]float32, 2, 3)", make([]float32, 2, 3), "make"}
+		}
+		return c10NumLit("float32", c10F32SlT, 1.5, 1, 16777216, -2.25)
+	case c10MapSlT:
+		n := 1 + g.rn(3)
+		return c10Val{fmt.Sprintf("make([]map[string]float64, %d)", n), make([]map[string]float64, n), "make"}
+	case c10SlSlT:
+		if r == 0 {
+			return c10Val{"[][]int64{[]int64{1, 2}, []int64{3}}", [][]int64{{1, 2}, {3}}, "tslice-lit"}
+		}
+		n := 1 + g.rn(3)
+		return c10Val{fmt.Sprintf("make([][]int64, %d)", n), make([][]int64, n), "make"}
+	case c10USlSlT:
+		n := 1 + g.rn(3)
+		return c10Val{fmt.Sprintf("make([][]interface, %d)", n), make([][]interface{}, n), "make"}
+	case c10MapSFT:
+		if r%2 == 0 {
+			return c10Val{"make(map[string]float64)", map[string]float64{}, "make"}
+		}
+		return c10Val{`map[string]float64{"k1": 1.5}`, map[string]float64{"k1": 1.5}, "tmap-lit"}
 	}
 	return c10Val{}
 }
@@ -1874,6 +2276,12 @@ func (g *c10Gen) op() *c10Op {
 	case reflect.Slice:
 		n, cp, et := cont.Len(), cont.Cap(), cont.Type().Elem()
 		d := g.dest(cont.Type())
+		if p.sel == 's' {
+			if r < 25 {
+				return h.opRead(p, g.idx(n), false)
+			}
+			return h.opWrite(p, g.idx(n), g.valFor(et), false)
+		}
 		switch {
 		case r < 12:
 			return h.opRead(p, g.idx(n), call)
@@ -1885,7 +2293,23 @@ func (g *c10Gen) op() *c10Op {
 				form = "+="
 			}
 			var rhs c10Val
+			sameT := ""
+			if cont.Type() != c10USliceT || cont.IsNil() {
+				sameT = g.pickName(cont.Type())
+			}
 			switch q := g.rn(100); {
+			case sameT != "" && q < 30:
+				// a variable (or a reslice of one) of exactly the left operand's type: the
+				// result must not share storage with it beyond what Go's append shares
+				var ok bool
+				if g.rn(3) == 0 {
+					rhs, ok = g.reslice(sameT)
+				}
+				if !ok {
+					if rhs, ok = g.varRef(sameT); !ok {
+						rhs = g.valFor(et)
+					}
+				}
 			case q < 55:
 				rhs = g.valFor(et)
 			case q < 75:
@@ -1916,6 +2340,9 @@ func (g *c10Gen) op() *c10Op {
 			v := g.scalar()
 			if et != c10IfaceT && g.rn(4) > 0 {
 				v = g.valFor(et)
+			}
+			if c10IsNumKind(et.Kind()) && g.rn(3) > 0 {
+				v = g.needle(cont)
 			}
 			return h.opIn(v, p)
 		case r < 97:
@@ -1984,6 +2411,15 @@ func c10RunRandom(c *wk.Case) {
 }
 
 // ---- fixed histories (deterministic; the first ones exercise the listed findings) ----
+
+// ref: the current value of a model variable as an operand (nil once the history is dead).
+func (h *c10Hist) ref(n string) c10Val {
+	v := h.mget(c10P(n))
+	if !v.IsValid() {
+		return c10Val{n, nil, "var"}
+	}
+	return c10Val{n, v.Interface(), "var"}
+}
 
 func c10IP(n int64) *c10Idx { x := c10IdxInt(n, "fixed"); return &x }
 
@@ -2074,7 +2510,7 @@ var c10Fixed = []func(h *c10Hist, do func(*c10Op)){
 		do(h.opFieldRead("st", "A"))
 		do(h.opFieldWrite("st", "B", c10Str("hello")))
 		do(h.opFieldWrite("st", "B", c10Float(1.5)))
-		do(h.opFieldWrite("st", "C", c10Val{"ts", h.mget(c10P("ts")).Interface(), "var"}))
+		do(h.opFieldWrite("st", "C", h.ref("ts")))
 		do(h.opWrite(c10Place{root: "st", sel: 'f', f: "C"}, c10IdxInt(0, "fixed"), c10Int(9), false))
 		do(h.opRead(c10P("ts"), c10IdxInt(0, "fixed"), false))
 		do(h.opWrite(c10Place{root: "st", sel: 'f', f: "C"}, c10IdxInt(3, "fixed"), c10Int(4), false))
@@ -2099,7 +2535,7 @@ var c10Fixed = []func(h *c10Hist, do func(*c10Op)){
 		do(h.opAppend("call", "b", c10P("a"), c10Int(7)))
 		do(h.opRead(c10P("b"), c10IdxInt(2, "fixed"), true))
 		do(h.opInit("m", c10Val{"{}", map[interface{}]interface{}{}, "umap-lit"}))
-		do(h.opMapWrite(c10P("m"), c10Str("k"), c10Val{"a", h.mget(c10P("a")).Interface(), "var"}, false, true))
+		do(h.opMapWrite(c10P("m"), c10Str("k"), h.ref("a"), false, true))
 		do(h.opWrite(c10Place{root: "m", sel: 'k', k: c10Str("k")}, c10IdxInt(1, "fixed"), c10Str("via-m"), false))
 		do(h.opRead(c10P("a"), c10IdxInt(1, "fixed"), false))
 	},
@@ -2126,6 +2562,156 @@ var c10Fixed = []func(h *c10Hist, do func(*c10Op)){
 		do(h.opInit("s", c10Str("abcdefghijk")))
 		do(h.opRead(c10P("s"), c10IdxNumStr(10), false))
 		do(h.opWrite(c10P("s"), c10IdxNumStr(10), c10Str("Z"), false))
+	},
+	// 13: membership on typed numeric slices of several element types: the element's own
+	// number, the number plus a fraction, plus / minus 2^8, 2^16, 2^32 (what a conversion to
+	// the element type truncates or wraps onto an element), and absent numbers
+	func(h *c10Hist, do func(*c10Op)) {
+		do(h.opInit("ts", c10I64Lit(1, 2, 300)))
+		do(h.opInit("ti", c10NumLit("int32", c10I32SlT, 1, 2, 300, -7)))
+		do(h.opInit("tb", c10NumLit("byte", c10U8SlT, 1, 2, 255)))
+		do(h.opInit("tg", c10NumLit("float32", c10F32SlT, 1.5, 1, 16777216)))
+		do(h.opInit("tf", c10F64Lit(1.5, 2)))
+		for _, n := range []string{"ts", "ti", "tb", "tg", "tf"} {
+			p := c10P(n)
+			for _, v := range []c10Val{c10Int(1), c10Float(1), c10Float(1.5), c10Float(1.9), c10Float(0.5), c10Float(2.5), c10Float(-6.5),
+				c10Int(257), c10Int(-255), c10Int(511), c10Int(-1), c10Int(65537), c10Int(4294967297), c10Int(4294967596), c10Int(-4294967303),
+				c10Int(16777217), c10Float(16777217), c10Int(3), c10Float(299.5), c10Nil()} {
+				do(h.opIn(v, p))
+			}
+		}
+	},
+	// 14: nil typed maps as the container of a store: zero elements of make([]map..),
+	// a name bound to one, a struct map field set to nil, a parameter. A convertible value
+	// is stored converted into a new map bound to the place (or the statement fails and
+	// changes nothing); an ill-typed value or key is an error that changes nothing
+	func(h *c10Hist, do func(*c10Op)) {
+		el := func(i int) c10Place { return c10Place{root: "nm", sel: 'i', i: i} }
+		do(h.opInit("nm", c10Val{"make([]map[string]float64, 4)", make([]map[string]float64, 4), "make"}))
+		do(h.opInit("tp", c10Val{"make(map[string]float64)", map[string]float64{}, "make"}))
+		do(h.opMapWrite(el(0), c10Str("k1"), c10Int(1), false, false))
+		do(h.opMapWrite(el(0), c10Str("k2"), c10Int(2), false, false))
+		do(h.opMapWrite(el(1), c10Str("k1"), c10Str("x"), false, false))
+		do(h.opMapWrite(el(1), c10USlice(c10Int(1)), c10Int(1), false, false))
+		do(h.opMapWrite(el(1), c10Str("k1"), c10USlice(c10Int(1)), false, false))
+		do(h.opMapRead(el(1), c10Str("k1"), false, false))
+		do(h.opLen(el(1)))
+		do(h.opDelete(el(1), c10Str("k1"), false))
+		do(h.opMapWrite(el(1), c10Str("k2"), c10Int(3), true, false))
+		do(h.opMapWrite(el(2), c10Str("k"), c10Int(5), false, true))
+		do(h.opLen(el(2)))
+		do(h.opAssign("tp", el(2)))
+		do(h.opMapWrite(c10P("tp"), c10Str("k"), c10Int(4), false, false))
+		do(h.opLen(el(2)))
+		do(h.opMapWrite(el(2), c10Str("k"), c10Float(2.5), false, false))
+		do(h.opMapRead(c10P("tp"), c10Str("k"), false, false))
+		do(h.opWrite(c10P("nm"), c10IdxInt(3, "fixed"), h.ref("tp"), false))
+		do(h.opMapWrite(el(3), c10Str("z"), c10Int(9), false, false))
+		do(h.opMapRead(c10P("tp"), c10Str("z"), false, false))
+		do(h.opWrite(c10P("nm"), c10IdxInt(3, "fixed"), c10Nil(), false))
+		do(h.opMapWrite(el(3), c10Str("z"), c10Bool(true), false, false))
+		do(h.opMapWrite(el(3), c10Str("z"), c10Int(8), false, false))
+		do(h.opInitStruct("st"))
+		fd := c10Place{root: "st", sel: 'f', f: "D"}
+		do(h.opFieldWrite("st", "D", c10Nil()))
+		do(h.opMapWrite(fd, c10Str("k1"), c10Str("s"), false, false))
+		do(h.opMapWrite(fd, c10Str("k1"), c10Float(2.9), false, false))
+		do(h.opFieldRead("st", "D"))
+		do(h.opFieldWrite("st", "D", c10Nil()))
+		do(h.opMapWrite(fd, c10Str("k2"), c10Float(3.5), true, false))
+	},
+	// 15: nil typed slices as the left operand of every append form and of a store at
+	// index 0 (= len): the result is a new array - it never shares storage with the
+	// right operand (Go's append(nil, b...) allocates) - holding converted values
+	func(h *c10Hist, do func(*c10Op)) {
+		el := func(i int) c10Place { return c10Place{root: "ns", sel: 'i', i: i} }
+		ref := h.ref
+		do(h.opInit("ns", c10Val{"make([][]int64, 5)", make([][]int64, 5), "make"}))
+		do(h.opInit("ts", c10I64Lit(1, 2)))
+		do(h.opAppend("+=", "", el(0), ref("ts")))
+		do(h.opWrite(el(0), c10IdxInt(0, "fixed"), c10Int(9), false))
+		do(h.opRead(c10P("ts"), c10IdxInt(0, "fixed"), false))
+		do(h.opAppend("=+", "", el(1), ref("ts")))
+		do(h.opWrite(c10P("ts"), c10IdxInt(1, "fixed"), c10Int(7), false))
+		do(h.opRead(el(1), c10IdxInt(1, "fixed"), false))
+		do(h.opAppend("d=", "tt", el(2), ref("ts")))
+		do(h.opWrite(c10P("tt"), c10IdxInt(0, "fixed"), c10Int(5), false))
+		do(h.opAppend("call", "tt", el(2), ref("ts")))
+		do(h.opWrite(c10P("tt"), c10IdxInt(1, "fixed"), c10Int(6), false))
+		do(h.opAppend("expr", "", el(2), ref("ts")))
+		do(h.opLen(el(2)))
+		do(h.opWrite(el(2), c10IdxInt(0, "fixed"), c10Float(2.5), false))
+		do(h.opWrite(el(2), c10IdxInt(5, "fixed"), c10Int(1), false))
+		do(h.opWrite(el(3), c10IdxInt(0, "fixed"), c10Str("x"), false))
+		do(h.opAppend("+=", "", el(3), c10Str("x")))
+		do(h.opAppend("+=", "", el(3), c10USlice(c10Float(1.5), c10Str("x"))))
+		do(h.opAppend("+=", "", el(3), c10USlice(c10Float(1.5), c10Int(2))))
+		do(h.opAppend("+=", "", el(4), c10Float(2.5)))
+		do(h.opAssign("tt", el(4)))
+		do(h.opWrite(c10P("tt"), c10IdxInt(0, "fixed"), c10Int(3), false))
+		do(h.opRead(el(4), c10IdxInt(0, "fixed"), false))
+		do(h.opWrite(c10P("ns"), c10IdxInt(4, "fixed"), c10Nil(), false))
+		do(h.opAssign("tt", el(4)))
+		do(h.opAppend("+=", "", c10P("tt"), ref("ts")))
+		do(h.opWrite(c10P("tt"), c10IdxInt(0, "fixed"), c10Int(8), false))
+		do(h.opLen(el(4)))
+		// a struct slice field set to nil
+		do(h.opInitStruct("st"))
+		fc := c10Place{root: "st", sel: 'f', f: "C"}
+		do(h.opFieldWrite("st", "C", c10Nil()))
+		do(h.opAppend("+=", "", fc, ref("ts")))
+		do(h.opWrite(fc, c10IdxInt(0, "fixed"), c10Int(4), false))
+		do(h.opRead(c10P("ts"), c10IdxInt(0, "fixed"), false))
+		do(h.opFieldWrite("st", "C", c10Nil()))
+		do(h.opWrite(fc, c10IdxInt(0, "fixed"), c10Float(7.9), false))
+		do(h.opWrite(fc, c10IdxInt(2, "fixed"), c10Int(1), false))
+		// untyped elements
+		ul := func(i int) c10Place { return c10Place{root: "nu", sel: 'i', i: i} }
+		do(h.opInit("nu", c10Val{"make([][]interface, 2)", make([][]interface{}, 2), "make"}))
+		do(h.opInit("a", c10USlice(c10Int(1), c10Str("b"))))
+		do(h.opAppend("+=", "", ul(0), ref("a")))
+		do(h.opWrite(c10P("a"), c10IdxInt(0, "fixed"), c10Int(9), false))
+		do(h.opRead(ul(0), c10IdxInt(0, "fixed"), false))
+		do(h.opAppend("d=", "b", ul(1), ref("a")))
+		do(h.opWrite(c10P("b"), c10IdxInt(1, "fixed"), c10Nil(), false))
+		do(h.opWrite(ul(1), c10IdxInt(0, "fixed"), c10Str("x"), false))
+	},
+	// 16: a slice expression as the container of a store shares the source's storage;
+	// failing stores through it change nothing
+	func(h *c10Hist, do func(*c10Op)) {
+		se := func(r string, i, j int) c10Place { return c10Place{root: r, sel: 's', i: i, j: j} }
+		do(h.opInit("a", c10USlice(c10Int(1), c10Int(2), c10Int(3))))
+		do(h.opInit("ts", c10I64Lit(1, 2, 3)))
+		do(h.opWrite(se("a", 0, 1), c10IdxInt(0, "fixed"), c10Int(9), false))
+		do(h.opWrite(se("a", 1, 3), c10IdxInt(1, "fixed"), c10Str("w"), false))
+		do(h.opRead(se("a", 1, 3), c10IdxInt(1, "fixed"), false))
+		do(h.opWrite(se("a", 0, 1), c10IdxInt(5, "fixed"), c10Int(9), false))
+		do(h.opWrite(se("a", 0, 1), c10IdxInt(-1, "fixed"), c10Int(9), false))
+		do(h.opWrite(se("a", 0, 1), c10IdxBad(c10Str("x"), "nonnumeric-string"), c10Int(9), false))
+		do(h.opWrite(se("ts", 1, 3), c10IdxInt(0, "fixed"), c10Float(2.5), false))
+		do(h.opWrite(se("ts", 0, 1), c10IdxInt(0, "fixed"), c10Str("x"), false))
+		do(h.opWrite(se("ts", 0, 1), c10IdxInt(1, "fixed"), c10Str("x"), false))
+		if !c10PendingFix_SliceExprAppend {
+			do(h.opWrite(se("a", 0, 1), c10IdxInt(1, "fixed"), c10Int(7), false))
+			do(h.opWrite(se("ts", 0, 2), c10IdxInt(2, "fixed"), c10Int(7), false))
+			do(h.opWrite(se("a", 0, 3), c10IdxInt(3, "fixed"), c10Int(7), false))
+		}
+	},
+	// 17: a slice appended as an ELEMENT of a typed slice of slices is a reference, by
+	// every append form
+	func(h *c10Hist, do func(*c10Op)) {
+		ref := h.ref
+		do(h.opInit("ns", c10Val{"make([][]int64, 0)", make([][]int64, 0), "make"}))
+		do(h.opInit("ts", c10I64Lit(1, 2)))
+		do(h.opWrite(c10P("ns"), c10IdxInt(0, "fixed"), ref("ts"), false))
+		do(h.opWrite(c10P("ts"), c10IdxInt(0, "fixed"), c10Int(7), false))
+		do(h.opRead(c10Place{root: "ns", sel: 'i', i: 0}, c10IdxInt(0, "fixed"), false))
+		do(h.opAppend("+=", "", c10P("ns"), c10Nil()))
+		if !c10PendingFix_AppendCopiesInner {
+			do(h.opAppend("+=", "", c10P("ns"), c10USlice(ref("ts"))))
+			do(h.opWrite(c10P("ts"), c10IdxInt(1, "fixed"), c10Int(8), false))
+			do(h.opRead(c10Place{root: "ns", sel: 'i', i: 2}, c10IdxInt(1, "fixed"), false))
+		}
 	},
 }
 
@@ -2378,17 +2964,19 @@ func init() {
 	wk.Register(&wk.Engine{
 		ID: "C10",
 		Plan: func(tier string) fw.Plan {
-			nRand := 6000
+			nRand := 9000
 			if tier == "thorough" {
 				nRand = 600000
 			}
 			return fw.Plan{
 				Level: "exploration",
-				Rule:  "one evaluation = one history: a fresh environment, 3-8 container variables and 10-40 operations, each its own vm.Execute call; after every operation every variable is fetched with env.Get and walked against a native Go model (types, contents, len, cap, storage sharing through a live<->model element-address bijection); an operation the Go model rejects must report an error and leave every container unchanged. A history is non-trivial when >=3 operations ran and >=1 mutated a container; distinct = distinct operation text.",
+				Rule:  "one evaluation = one history: a fresh environment, 3-8 container variables (one of 9 profiles) and 10-40 operations, each its own vm.Execute call; after every operation every variable is fetched with env.Get and walked against a native Go model (types, contents, len, cap, storage sharing through a live<->model element-address bijection); containers include typed numeric slices of five element types, nil typed maps / nil typed slices (zero elements of make([]map..) / make([][]T..), names and struct fields bound to nil) and slice expressions as the left operand of a store; an operation the Go model rejects must report an error and leave every container unchanged. A history is non-trivial when >=3 operations ran and >=1 mutated a container; distinct = distinct operation text.",
 				Assumptions: []string{
 					"Go's own slice/map/string operations (through reflect) are the reference; capacity after a growing append is adopted from the live object",
 					"numeric-string indices only as decimal numerals with a leading zero (accepted: error, or what the integer does); not generated: float/bool indices, reslice high bound in (len,cap], struct value copies, `in` on maps/strings, multi-byte string-position stores, int->string and nil->typed-slot stores",
-					"accepted both ways: []interface{} / []float64 stored into a []int64 field (element-wise copy or error); missing key of a typed map reads nil or the zero value; a key a typed map cannot hold reads nil or errors",
+					"accepted both ways: []interface{} / []float64 stored into a []int64 field (element-wise copy or error); missing key of a typed map reads nil or the zero value; a key a typed map cannot hold reads nil or errors; a store of a convertible value into a NIL typed map (error leaving everything unchanged, or a new map with the converted value bound to the place)",
+					"typed numeric slices []int32 / []byte / []float32: stores only of values the element type can hold (wrapping integer stores, string->byte/rune, []byte/[]rune->string not generated); `in` with a numeric needle of another Go type than the elements is judged only when the needle denotes a number that no element denotes (then it must be false); nil against a nil typed slice/map element is not judged",
+					"kept out until /repo is repaired (C10-genuine.md, constants c10PendingFix_*): a store at index len through a slice expression `a[i:j][len] = v`; `ns += [ts]` on a typed slice of slices (copies ts instead of referencing it); delete with an unusable key on a nil map; also not generated: a nil inside a list appended to a typed slice, an empty list of an unappendable type",
 				},
 				Phases: []fw.Phase{
 					{Name: "fixed", Cases: len(c10Fixed), Chunk: len(c10Fixed), TimeoutS: 300},
